@@ -113,11 +113,21 @@ def rawObj : Decl V P → Obj V P
   | .pyNode v h => .node (.pyNode v h)
   | .pickle p => .node (.pickleNode p)
 
+/-- `isinstance(x, (PNode, PProvisionalNode))` on an object of the declaration. -/
+def isNodeDecl : Decl V P → Bool
+  | .pyNode _ _ => true
+  | .pickle _ => true
+  | _ => false
+
 /-- One argument of `parse_dependencies_from_task_function` (the body of its last loop):
-`tree_map_with_path(collect_dependency, value)`, then the collapse rule. -/
+`tree_map_with_path(collect_dependency, value)`, then the collapse rule: all collected leaves are
+un-hashed `PythonNode`s **and** (since fix 594c921, `Generated.collapseKeepsUserNodes`) the declared
+value holds no node written by the user. -/
 def collectDep (value : T (Decl V P)) : T (Node V P) :=
   let nodes := mapWithPath (fun _ d => collectLeaf d) value
-  if !isLeafTree nodes && (leaves nodes).all isUnhashedPy then .leaf (.pyTree value) else nodes
+  if !isLeafTree nodes && (leaves nodes).all isUnhashedPy &&
+      !(Generated.collapseKeepsUserNodes && (leaves value).any isNodeDecl)
+  then .leaf (.pyTree value) else nodes
 
 /-- `tree_map_with_path(_collect_product, value)`; in the declaration of the return a value that is
 neither a path nor a node is rejected. -/
@@ -195,13 +205,15 @@ def Func.productNames (f : Func V P) : List String :=
   let pa1 := if f.paramNames.contains "produces" && !pa0.contains "produces" then pa0 ++ ["produces"] else pa0
   if Dict.contains f.nodeAnnot "return" then pa1 ++ ["return"] else pa1
 
-/-- `value = kwargs.get(name) or parameters_with_node_annot.get(name)`; Python's `None` is the leaf `none`. -/
+/-- `value = kwargs[name] if name in kwargs else parameters_with_node_annot.get(name)` (fix 123c420;
+before it `kwargs.get(name) or …`, i.e. a falsy declared value fell through to the annotation —
+`Generated.productFalsyFallsBack`); Python's `None` is the leaf `none`. -/
 def Func.productValue (f : Func V P) (name : String) : T (Decl V P) :=
   let fromAnnot := match Dict.get f.nodeAnnot name with
     | some t => t
     | none => noneTree (.value pv.none)
   match Dict.get f.merged name with
-  | some v => if isFalsy pv v then fromAnnot else v
+  | some v => if Generated.productFalsyFallsBack && isFalsy pv v then fromAnnot else v
   | none => fromAnnot
 
 /-- `parse_products_from_task_function` (`collect_utils.py:160-247`). -/
